@@ -59,6 +59,48 @@ def body_factory(tier, seed):
                                       "%s an invalid Reset" % ("skipping" if skips else "validating", "rejected" if skips else "accepted"),
                                       {"kind": "two-classes", "version": version, "first_class_skips": first_skips, "this_class_skips": skips,
                                        "frame": raw, "observation": obs})
+        # a handler function that one class registered with validation skipped is registered AGAIN by another class
+        # (or a subclass) with default / explicit validating options: the second declaration decides for that class
+        import asyncio as _asyncio
+        import importlib as _importlib
+        from ocpp.routing import on as _on
+        for version in ("1.6", "2.0.1"):
+            pkg = "v16" if version == "1.6" else "v201"
+            base_cls = getattr(_importlib.import_module("ocpp." + pkg), "ChargePoint")
+            cr = _importlib.import_module("ocpp.%s.call_result" % pkg)
+            for variant in ("default", "explicit-false", "subclass"):
+                ran = []
+
+                class Legacy(base_cls):
+                    @_on("Reset", skip_schema_validation=True)
+                    def on_reset(self, **kw):
+                        ran.append(type(self).__name__)
+                        return cr.Reset(status="Accepted")
+                if variant == "subclass":
+                    class Strict(Legacy):
+                        on_reset = _on("Reset")(Legacy.on_reset)
+                elif variant == "default":
+                    class Strict(base_cls):
+                        on_reset = _on("Reset")(Legacy.on_reset)
+                else:
+                    class Strict(base_cls):
+                        on_reset = _on("Reset", skip_schema_validation=False)(Legacy.on_reset)
+                rec = D.Recorder()
+
+                async def go():
+                    cp = Strict("strict", D.Conn(rec))
+                    import logging
+                    cp.logger = logging.getLogger("ov-silent")
+                    await cp.route_message('[2,"rd","Reset",{"type":"NotAType","extra":1}]')
+                _asyncio.run(go())
+                rep.count("redecorated:%s:%s" % (version, variant))
+                w = O.sends(rec.seq)
+                if ran or not (len(w) == 1 and w[0][0] == 4):
+                    rep.violation("C16:redecorated:%s:%s" % (version, variant),
+                                  "a class that registers an already skip-decorated handler function again with %s options %s an invalid Reset "
+                                  "(handler ran: %r, written: %r)" % (variant, "accepted" if ran else "mishandled", ran, w[:1]),
+                                  {"kind": "redecorated", "version": version, "variant": variant, "frame": '[2,"rd","Reset",{"type":"NotAType","extra":1}]',
+                                   "handler_ran": ran, "written": w[:1]})
         for c in (cases[25], cases[len(cases) // 2], cases[-1]):
             rep.sample({"stratum": c[0], "version": c[1], "frame": str(c[3])[:200]})
     return body
